@@ -80,6 +80,8 @@ class FloatSpec (F : Type) extends FloatLike F where
   fract_spec : ∀ {a : F}, Fin a →
     Fin (FloatLike.fract a) ∧ (val (FloatLike.fract a) = 0 ↔ ∃ n : ℤ, val a = n)
   fmax_spec : ∀ {a b : F}, Fin a → Fin b → Fin (fmax a b) ∧ val (fmax a b) = max (val a) (val b)
+  /-- `f64::is_normal` on a finite value: its magnitude is at least the smallest normal number `2^-1022` -/
+  isNormal_spec : ∀ {a : F}, Fin a → (FloatLike.isNormal a = true ↔ (1:ℝ) / 2 ^ 1022 ≤ |val a|)
   -- ---------------------------------------------------------------- comparisons
   flt_spec : ∀ {a b : F}, Fin a → Fin b → (flt a b = true ↔ val a < val b)
   fle_spec : ∀ {a b : F}, Fin a → Fin b → (fle a b = true ↔ val a ≤ val b)
